@@ -18,10 +18,18 @@ import (
 )
 
 const (
-	repoDir  = "/repo"
 	verifDir = "/verif"
 	modPath  = "github.com/samaritan-proxy/samaritan"
 )
+
+// repoDir is the tree under check: /repo, unless VF_REPO points at a scratch worktree (used only
+// when trying seeded changes; registered checks always run against /repo).
+var repoDir = func() string {
+	if d := os.Getenv("VF_REPO"); d != "" {
+		return d
+	}
+	return "/repo"
+}()
 
 func main() {
 	if len(os.Args) < 2 {
